@@ -386,7 +386,15 @@ func (s *session) execPiece(ctx context.Context, p *piece, args []interface{}) (
 		}
 		e.record(s, p.kind, p.table, p.text, args, err, n, inTxn)
 	}()
-	if ferr := e.matchFault(s, p.kind, p.table); ferr != nil {
+	ferr := e.matchFault(s, p.kind, p.table)
+	if d, slow := ferr.(*delayFault); slow {
+		// a slow server: the statement is held up (without the engine lock), then runs
+		e.mu.Unlock()
+		time.Sleep(d.d)
+		e.mu.Lock()
+		ferr = nil
+	}
+	if ferr != nil {
 		if (p.kind == "commit" || p.kind == "rollback") && s.xa == nil {
 			s.discardTxn() // faulted COMMIT == commit failed, transaction rolled back
 		}
